@@ -6,6 +6,7 @@ package main
 
 import (
 	"context"
+	"database/sql"
 	"encoding/json"
 	"errors"
 	"fmt"
@@ -19,6 +20,7 @@ import (
 
 	"verif/harness/atlab"
 	"verif/harness/common"
+	"verif/harness/memsql"
 	"verif/harness/tc"
 	"verif/harness/trace"
 )
@@ -184,6 +186,23 @@ func run(lab *atlab.Lab, t *trace.T, sc scenario, schema *atlab.Schema, style at
 				nb++
 				before := len(lab.Registered(xid))
 				var err error
+				lab.Prelude = nil
+				if style.FailFirst {
+					if cur, _ := lab.Project(schema); true {
+						for k := 1; k <= len(cur); k++ {
+							if cur[k-1] != atlab.Absent && cur[k-1].W >= 0 {
+								key := k
+								lab.Prelude = func(ctx context.Context, tx *sql.Tx) {
+									q, a := schema.SQL(atlab.Stmt{Kind: "upd", Keys: []int{key}, W: 2}, atlab.Style{})
+									lab.Srv.AddFault(memsql.Fault{Class: "update", Table: schema.Name})
+									_, _ = tx.ExecContext(ctx, q, a...)
+									lab.Srv.ClearFaults()
+								}
+								break
+							}
+						}
+					}
+				}
 				if sc.Shape != "" && len(st.Stmts) == 1 {
 					q, args, ok := schema.ShapeSQL(st.Stmts[0], sc.Shape, sc.Place)
 					if !ok {
@@ -195,6 +214,7 @@ func run(lab *atlab.Lab, t *trace.T, sc scenario, schema *atlab.Schema, style at
 				} else {
 					err = lab.RunBranch(ctx, schema, st.Stmts, style)
 				}
+				lab.Prelude = nil
 				regs := lab.Registered(xid)
 				reg := len(regs) > before
 				undo := "none"
